@@ -177,11 +177,10 @@ def newFromHash (h : Bytes) : Res Hashed := do
   let h ← sliceFrom h 22
   pure ⟨h, salt, cost, major, minor⟩
 
-/-- `fmt.Sprintf("%02d", cost)` -/
+/-- `fmt.Sprintf("%02d", cost)` (two digits for 0..99, which `checkCost` guarantees; wider otherwise) -/
 def fmt02 (cost : Int) : Bytes :=
-  let s := if cost < 0 then "-" ++ toString cost.natAbs else toString cost.natAbs
-  let s := if s.length < 2 then "0" ++ s else s
-  s.toUTF8.data.toList
+  if 0 ≤ cost ∧ cost < 100 then [UInt8.ofNat (48 + cost.toNat / 10), UInt8.ofNat (48 + cost.toNat % 10)]
+  else (if cost < 0 then "-" ++ toString cost.natAbs else toString cost.natAbs).toUTF8.data.toList
 
 /-- `(*hashed).Hash()`: the 60-byte array, `copy`s truncating at its end, `arr[:n]` -/
 def hashString (p : Hashed) : Bytes :=
